@@ -897,6 +897,8 @@ def run(ctx, rep, cases=None):
         sr, sm = expand_samples(sreplies[sa:sa + m], meta)
         judge(cs, im, expand(cs, replies[a:a + n]), sr, sm, rep)
     known_stream(ctx, rep)
+    rebinding_stream(ctx, rep)
+    opaque_stream(ctx, rep)
 
 
 # ---------------------------------------------------------------------------------------------
@@ -918,12 +920,105 @@ def known_stream(ctx, rep):
                  dict(stream="user-volume"), finding="user_volume_lost_on_call")
 
 
+def rebinding_stream(ctx, rep):
+    """evidence only (never an alarm — the property does not say what re-binding a fixed variable means):
+    does the implementation follow the as-coded model `pevalC` (value when complete, defaults otherwise)
+    when a later parameter row binds a fixed variable again?"""
+    tp = common.use_repo()
+    import torch
+    rng = ctx.rng
+    cases, lines = [], []
+    for i in range(ctx.scale(12, 60)):
+        params = rng.sample(PARAMS, 2)
+        g = Gen17(rng, params=params, p_dep=0.7, allow_rotate=False)
+        node = g.solid(2, "x")
+        fixed = params[0]
+        sigma = {fixed: [Fr(rng.randint(0, 16), 16)]}
+        rows = []
+        for _ in range(40):
+            pt = {"x": [Fr(rng.randint(-4 * 32, 4 * 32), 32) for _ in range(2)]}
+            rows.append((frs(pt), 0))
+        prow = [frs({p: [Fr(rng.randint(0, 16), 16)] for p in params})]     # binds the fixed variable again
+        cases.append((node, sigma, rows, prow, params))
+        lines.append(f"rebind {TOL} {node.tokens()} {env_tokens(sigma)} {rows_tokens(rows, prow)}")
+    replies = common.run_driver("C17", lines)
+    for (node, sigma, rows, prow, params), rl in zip(cases, replies):
+        D = to_tp(node, tp)
+        E, err = attempt(lambda: D(**kwargs_of(torch, frs(sigma), list(sigma))))
+        if err:
+            continue
+        pts = mk_points(tp, torch, node, [pt for pt, _ in rows])
+        got, err = attempt(E._contains, pts, mk_params(tp, torch, params, [prow[0]] * len(rows)))
+        if err:
+            rep.count("rebinding:raises")
+            continue
+        for b, r in zip(got.reshape(-1).tolist(), rl.split(";")):
+            cC, mC, cP, mP = r.split()
+            if cC == "none" or mC == "none" or Fr(mC) <= MARGIN or mP == "none" or Fr(mP) <= MARGIN:
+                continue
+            if cC == cP:
+                rep.count("rebinding:branches-agree")
+            else:
+                rep.count("rebinding:implementation-follows-" + ("pevalC(as coded)" if bool(b) == (cC == "1") else "peval(row wins)"))
+
+
+def opaque_stream(ctx, rep):
+    """polygons / polyhedra are constants (`__call__` returns the object itself): expressions that combine them
+    with parameter-dependent shapes — implementation-level oracles only"""
+    tp = common.use_repo()
+    import torch
+    from torchphysics.problem.domains.domain2D.shapely_polygon import ShapelyPolygon
+    from torchphysics.problem.domains.domain3D.trimesh_polyhedron import TrimeshPolyhedron
+    rng = ctx.rng
+    R1, R2, R3 = tp.spaces.R1, tp.spaces.R2, tp.spaces.R3
+    for i in range(ctx.scale(6, 30)):
+        a, b0, b1 = [Fr(rng.randint(-8, 8), 4) for _ in range(3)]
+        r0 = Fr(rng.randint(2, 8), 4)
+        tval = Fr(rng.randint(0, 16), 16)
+        kind = rng.choice(["union", "cut", "inter", "product3d"])
+        desc = dict(stream="opaque", kind=kind, a=str(a), centre=[str(b0), str(b1)], r0=str(r0), t=str(tval))
+        try:
+            if kind == "product3d":
+                P = TrimeshPolyhedron(R3("z"), vertices=[[0, 0, 0], [1, 0, 0], [0, 1, 0], [0, 0, 1]], faces=[[0, 2, 1], [0, 1, 3], [0, 3, 2], [1, 2, 3]])
+                I = tp.domains.Interval(R1("y"), float(a), lambda t: float(a) + 1 + t[:, :1])
+                D = P * I
+                pts = tp.spaces.Points(torch.tensor([[0.1, 0.1, 0.1, float(a) + 0.5], [0.1, 0.1, 0.1, float(a) + 1.75], [2.0, 0.1, 0.1, float(a) + 0.5]]), R3("z") * R1("y"))
+            else:
+                P = ShapelyPolygon(R2("x"), vertices=[[float(a), 0], [float(a) + 2, 0], [float(a) + 2, 1], [float(a) + 1, 1], [float(a) + 1, 2], [float(a), 2]])
+                C = tp.domains.Circle(R2("x"), [float(b0), float(b1)], lambda t: float(r0) + t[:, :1])
+                D = P + C if kind == "union" else P - C if kind == "cut" else P & C
+                pts = tp.spaces.Points(torch.tensor([[float(Fr(rng.randint(-96, 96), 32)), float(Fr(rng.randint(-96, 96), 32))] for _ in range(24)]), R2("x"))
+        except Exception as e:  # noqa
+            rep.fail(f"an expression with a polygon / polyhedron leaf and a parameter-dependent partner cannot be built: {type(e).__name__}: {str(e)[:120]}", desc)
+            continue
+        rep.count("opaque-stream:" + kind)
+        trow = tp.spaces.Points(torch.full((len(pts), 1), float(tval)), R1("t"))
+        E, err = attempt(lambda: D(t=torch.tensor([[float(tval)]])))
+        if err:
+            rep.fail(f"D(t={float(tval)}) raised {err}", desc)
+            continue
+        if sorted(D.necessary_variables) != ["t"] or sorted(E.necessary_variables) != []:
+            rep.fail(f"necessary_variables: D declares {sorted(D.necessary_variables)} (expected ['t']), D(t=..) declares {sorted(E.necessary_variables)} (expected [])", desc)
+            continue
+        ref, e1 = attempt(D._contains, pts, trow)
+        got, e2 = attempt(E._contains, pts)
+        if e1 or e2:
+            if e2 and not e1:
+                rep.fail(f"D(t=..)._contains raised {e2} while D._contains with t as parameter works", desc)
+            continue
+        if [bool(x) for x in ref.reshape(-1).tolist()] != [bool(x) for x in got.reshape(-1).tolist()]:
+            rep.fail("membership of D(t=..) differs from D with t supplied as parameter (polygon / polyhedron expression)", desc)
+
+
 def replay(ctx, obj):
     rep = common.Report(ctx)
     lean = common.lean_check("C17")
     inp = (obj.get("failing_input") or obj.get("first"))["input"]
     if inp.get("stream") == "user-volume":
         known_stream(ctx, rep)
+        return common.finish(ctx, rep, lean)
+    if inp.get("stream") == "opaque":
+        opaque_stream(ctx, rep)
         return common.finish(ctx, rep, lean)
     node = geomgen.from_json(inp["dom"])
     rng = ctx.rng
